@@ -455,6 +455,7 @@ func appendSnapshotFunctions(b []byte, s *slip.Scope) []byte {
 			sort.Slice(fia, func(i, j int) bool {
 				return fia[i].Name < fia[j].Name
 			})
+			fia = macrosFirst(fia)
 			b = append(b, '\n')
 			b = pp.Append(b, s, slip.List{
 				slip.Symbol("use-package"),
@@ -472,6 +473,74 @@ func appendSnapshotFunctions(b []byte, s *slip.Scope) []byte {
 		slip.String(slip.CurrentPackage.Name),
 	})
 	return b
+}
+
+// macrosFirst returns the functions with the macros moved to the front, a
+// macro whose body uses another macro after that one. A load evaluates the
+// definitions in the order of the file and a call compiled before its macro
+// is defined is compiled as a function call that evaluates its arguments.
+func macrosFirst(fia []*slip.FuncInfo) (ordered []*slip.FuncInfo) {
+	macros := map[string]*slip.FuncInfo{}
+	for _, fi := range fia {
+		if fi.Kind == slip.MacroSymbol {
+			macros[strings.ToLower(fi.Name)] = fi
+		}
+	}
+	placed := map[*slip.FuncInfo]bool{}
+	var place func(fi *slip.FuncInfo)
+	place = func(fi *slip.FuncInfo) {
+		if placed[fi] {
+			return
+		}
+		placed[fi] = true
+		if fun, _ := fi.Create(nil).(slip.Funky); fun != nil {
+			used := map[string]bool{}
+			collectCalled(fun.Caller(), used)
+			names := make([]string, 0, len(used))
+			for name := range used {
+				names = append(names, name)
+			}
+			sort.Strings(names)
+			for _, name := range names {
+				if m := macros[name]; m != nil {
+					place(m)
+				}
+			}
+		}
+		ordered = append(ordered, fi)
+	}
+	for _, fi := range fia {
+		if fi.Kind == slip.MacroSymbol {
+			place(fi)
+		}
+	}
+	for _, fi := range fia {
+		place(fi)
+	}
+	return
+}
+
+// collectCalled collects the names of the functions called in code.
+func collectCalled(code any, names map[string]bool) {
+	switch tc := code.(type) {
+	case *slip.Lambda:
+		for _, form := range tc.Forms {
+			collectCalled(form, names)
+		}
+	case slip.List:
+		for _, v := range tc {
+			collectCalled(v, names)
+		}
+	case slip.Funky:
+		if name := tc.GetName(); 0 < len(name) {
+			names[strings.ToLower(name)] = true
+		} else {
+			collectCalled(tc.Caller(), names)
+		}
+		for _, a := range tc.GetArgs() {
+			collectCalled(a, names)
+		}
+	}
 }
 
 func isCorePackage(p *slip.Package) bool {
